@@ -21,7 +21,7 @@ from vf.xmodel import build_api, Schema, Rop
 
 SHARDS = {'quick': 16, 'thorough': 64}
 TIMEOUT = {'quick': 1200, 'thorough': 7200}
-MUST_HIT = ['Input.short-positional-row', 'Join.api-reflexive-pairs', 'Join.api-batch-relate', 'EarlierObject.rechecked', 'Join.loader', 'Canon.permutation', 'Canon.partition-inputs', 'Canon.files',
+MUST_HIT = ['Schema.identifier-referred-to-in-two-attribute-orders', 'Schema.association-number-declared-in-two-separate-runs', 'Input.short-positional-row', 'Join.api-reflexive-pairs', 'Join.api-batch-relate', 'EarlierObject.rechecked', 'Join.loader', 'Canon.permutation', 'Canon.partition-inputs', 'Canon.files',
             'Canon.directory-tree', 'Canon.zip', 'Join.api-new', 'Join.api-clone', 'Canon.inferred-schema',
             'Join.null-key', 'Join.duplicate-key', 'Join.dangling-key', 'Join.multi-attribute-key']
 MUST_REACH = ['xtuml/load.py:ModelLoader.populate_connections', 'xtuml/meta.py:Link.compute_lookup_key',
@@ -591,5 +591,7 @@ def run(ctx):
             except Mismatch as e:
                 ctx.violation(e.key, e.what, case=dict(part='inferred'))
         ctx.hit('Input.short-positional-row', sqlgen.SHORT_ROWS[0])
+        for k, v in sqlgen.SHAPES.items():
+            ctx.hit('Schema.' + k, v)
     finally:
         shutil.rmtree(tmpdir, ignore_errors=True)
